@@ -142,7 +142,7 @@ def evidence(ctx):
     ctx.assumptions += ["extra classes either use short names that do not occur in the program text, or (lookalikes) sit in another frame and share the short name of a class or module the program defines, "
                         "which must contain a lower-case rune: an ALL-CAPITAL program constant that equals a configured short name is classified differently (`classify_collision`, the refuted case of the flat BuiltinClasses list)"]
     common.write_evidence(ctx, LEVEL, RULE, trusted=common.BASE_TRUST + [
-        "modelled: TFrame as a Go map; Token.classify with the BuiltinClasses list", "modelled: the BuiltinClasses redirect of include/extend edges in getParentMethodT (lookup stream)", "not modelled: the superclass redirect in eval/class.go (end-to-end only)"])
+        "modelled: TFrame as a Go map; Token.classify with the BuiltinClasses list", "modelled: the BuiltinClasses redirect of include/extend edges in getParentMethodT (lookup stream)", "modelled: the superclass choice of eval/class.go (Namespace.superclassFrame); its shape in the source is a regenerated syntactic fact (Gen/ClassFacts.lean), its behaviour is tied end-to-end"])
 
 
 def replay(ctx, path):
